@@ -58,11 +58,16 @@ impl<I: SelectSyscall> SelectSyscall for NioSelectSyscall<I> {
         let mut t = if timeout.is_null() {
             c_uint::MAX
         } else {
-            unsafe {
-                c_uint::try_from((*timeout).tv_sec).expect("overflow")
-                    .saturating_mul(1_000_000)
-                    .saturating_add(c_uint::try_from((*timeout).tv_usec).expect("overflow"))
+            let (sec, usec) = unsafe { ((*timeout).tv_sec, (*timeout).tv_usec) };
+            if sec < 0 || usec < 0 {
+                crate::syscall::set_errno(libc::EINVAL);
+                return -1;
             }
+            // the loop below counts in milliseconds, round up so we never return early
+            c_uint::try_from(sec)
+                .unwrap_or(c_uint::MAX)
+                .saturating_mul(1_000)
+                .saturating_add(c_uint::try_from(usec.saturating_add(999) / 1_000).unwrap_or(c_uint::MAX))
         };
         let mut o = timeval {
             tv_sec: 0,
